@@ -205,7 +205,7 @@ class Struct:
         self.track = track     # when set, field assignments are recorded as effects on "<track>.<field>"
 
     def copy(self):
-        return Struct(self.name, {k: (v.copy() if hasattr(v, "copy") else v) for k, v in self.f.items()})
+        return Struct(self.name, {k: (v.copy() if hasattr(v, "copy") and not isinstance(v, sp.Basic) else v) for k, v in self.f.items()})
 
 
 class Container:
@@ -850,6 +850,7 @@ class Interp:
             c = Container(v.name, v.kind, v.slots, v.struct_fields)
             c.gen, c.store, c.size, c.zeroed = v.gen, list(v.store), v.size, v.zeroed
             c.owner = v.owner
+            c.copy_of = (v.name, v.tag())        # provenance of a by-value copy (the copy keeps reading as the original)
             return c
         if isinstance(v, (BlockVec, SmallMat, Struct)):
             return v.copy()
